@@ -508,6 +508,28 @@ func initStubs() {
 		b := nondetNameRaw(e, st, []Value{args[1], sliceOfInt(e, st, args[3])})
 		return ret(st, App("<", BoolSort, e.conc.placeholder("clk", a, IntSort), e.conc.placeholder("clk", b, IntSort)))
 	}
+	// TimeOf(name, idx...): real time (ns, mathematical integer carried as int64) of a ghost event
+	stubTable[zzp+"TimeOf"] = func(e *Exec, st *State, fn *Func, args []Value, site string) []Outcome {
+		if e.conc == nil {
+			fail("TimeOf outside concurrent mode")
+		}
+		t := e.conc.placeholder("time", evKey(e, st, args), IntSort)
+		if mathInts {
+			return ret(st, t)
+		}
+		return ret(st, mk("int2bv", BV(64), 0, 0, "", t))
+	}
+	// After(nameA, nameB, idxA, idxB, d): time(B) >= time(A) + d   (real time, exact integers)
+	stubTable[zzp+"NotBefore"] = func(e *Exec, st *State, fn *Func, args []Value, site string) []Outcome {
+		if e.conc == nil {
+			fail("NotBefore outside concurrent mode")
+		}
+		a := nondetNameRaw(e, st, []Value{args[0], sliceOfInt(e, st, args[2])})
+		b := nondetNameRaw(e, st, []Value{args[1], sliceOfInt(e, st, args[3])})
+		d := durInt(args[4].(*Term))
+		ta, tb := e.conc.placeholder("time", a, IntSort), e.conc.placeholder("time", b, IntSort)
+		return ret(st, App("<=", BoolSort, App("+", IntSort, ta, d), tb))
+	}
 	stubTable[zzp+"Happened"] = func(e *Exec, st *State, fn *Func, args []Value, site string) []Outcome {
 		if e.conc == nil {
 			fail("Happened outside concurrent mode")
